@@ -377,10 +377,10 @@ package wal
 //@ nondet
 //@ assume forall i int :: 0 <= i && i < len(codec.SupportedCodecs) ==> codec.SupportedCodecs[i] != nil because "package-level slice literal of the codec singletons, never written"
 //@ loop 0 invariant segments == nil || fresh(segments)
-//@ loop 0 modifies fresh, fields(int64), fields(uint64), fields(int)
+//@ loop 0 modifies fresh, cells(int64), cells(uint64), cells(int)
 //@ loop 1 invariant segments == nil || fresh(segments)
-//@ loop 1 modifies fresh, fields(int64), fields(uint64), fields(int)
+//@ loop 1 modifies fresh, cells(int64), cells(uint64), cells(int)
 //@ ensures err == nil ==> forall i int, j int :: 0 <= i && i < j && j < len(segments) ==> segments[i] <= segments[j]
 //@ ensures segments == nil || fresh(segments)
-//@ modifies fields(int64), fields(uint64), fields(int)
+//@ modifies cells(int64), cells(uint64), cells(int)
 //@ note the frame is as wide as the trusted contract of fmt.Sscanf (any integer cell); the only cell actually written is the local id
